@@ -8,8 +8,11 @@ import torch
 
 import pydrobert.torch.modules as M
 
+import copy
+
 from mc.runner import Ctx
 from mc.oracles import attention as O
+from mc import guards as GD
 
 PROP = "C20"
 LEVEL = "exploration"
@@ -33,12 +36,26 @@ RULE = (
     "(2 sign patterns); every non-identity permutation of the sequence axis applied to key, value, mask; "
     "query expanded; everything expanded; mask None == all-True; negative spelling == non-negative "
     "spelling; multi-headed == oracle composition from the module's own weights; bias parameters present "
-    "exactly where requested for all 16 flag subsets x heads x wrapped flavour. Cases distinct by "
-    "construction; non-trivial = T>=2."
+    "exactly where requested for all 16 flag subsets x heads x wrapped flavour. Guard passes "
+    "(mc/guards.py): (1) after EVERY forward of every pass query, key, value and mask are compared with "
+    "clones taken before the call; (2) the base result of every case is kept and must be unchanged after "
+    "all later calls of the case on the same module object; (3)+(5) on the 687 families of rank 2, rank 3 "
+    "with batch size <=2 and rank 4 with axis patterns from the menu of 6, for every mask and flavour: "
+    "query/key/value/mask as offset views and as transposed-dense views, float64 inputs on a float64 copy "
+    "of the module, and inf / -inf / NaN KEYS at every masked key entry; (4) the module objects are "
+    "long-lived (one per flavour and dim per worker, shared by all shapes, T and masks), and a history "
+    "pass drives ONE fresh object per flavour (6 single-head + 3 multi-headed) through every third of "
+    "those families with rank, batch shape, T and mask changing, dim reassigned through the public "
+    "attribute (multi-headed: also on the wrapped module), train/eval alternating - each result == a "
+    "fresh object's; (6) one larger instance: key (7,50,5,K), per-row / shared / no mask, full and "
+    "broadcast query, dim 1 and -3, all flavours incl. 4 heads (3 fixed permutations instead of 50!). "
+    "Cases distinct by construction; non-trivial = T>=2."
 )
 ASSUMPTIONS = [
     "small scope: batch sizes <=3, T<=3, feature sizes 2-3, hidden 3, heads <=2; float32, tolerance 1e-5",
-    "'replaced by anything' = any finite values (+-3e4); non-finite garbage (0*inf) is outside the statement",
+    "'replaced by anything': masked KEYS may hold anything incl. inf/NaN (guard pass) and +-3e4 (everywhere); "
+    "masked VALUES any finite numbers (+-3e4) - a non-finite masked value turns 0*inf into NaN in any weighted "
+    "sum and the statement is not read as promising otherwise",
     "a key/value entry shared by several broadcast rows counts as masked only if it is masked in all of them",
     "key, value and mask carry the same T (the class docstring); broadcasting along the sequence axis itself "
     "is not enumerated",
@@ -97,10 +114,22 @@ def _build_single(cfg, dim):
     return M.ConcatSoftAttention(cfg["Q"], cfg["K"], dim, cfg["bias"], 3)
 
 
-def _module(cfg, dim, seed):
-    key = (repr(sorted(cfg.items(), key=str)), dim, seed)
+def _module(cfg, dim, seed, double=False):
+    """Long-lived module objects: one per (flavour, dim) and worker, shared by every shape, T and
+    mask of the shard (so every relation below is also a statement about a re-used object)."""
+    key = (repr(sorted(cfg.items(), key=str)), dim, seed, double)
     if key in _CACHE:
         return _CACHE[key]
+    if double:
+        mod = copy.deepcopy(_module(cfg, dim, seed)).double()
+    else:
+        mod = _new_module(cfg, dim, seed)
+    _CACHE[key] = mod
+    return mod
+
+
+def _new_module(cfg, dim, seed):
+    """A fresh object with the seed-valued parameters of this flavour."""
     tag = repr(sorted((k, v) for k, v in cfg.items()))  # parameters do not depend on dim
     if cfg["kind"] == "mha":
         w = cfg["wrapped"]
@@ -112,7 +141,6 @@ def _module(cfg, dim, seed):
         mod = _build_single(cfg, dim)
     _fill(mod, seed, tag)
     mod.eval()
-    _CACHE[key] = mod
     return mod
 
 
@@ -258,11 +286,20 @@ def _prepare(tpos, q, k, v, mask):
         ones_shape = [1] * (k.dim() - 1)
         ones_shape[tpos] = T
         prep["ones"] = torch.ones(ones_shape, dtype=torch.bool)
-    prep["perms"] = [torch.tensor(p) for p in itertools.permutations(range(T)) if list(p) != list(range(T))]
+    if T <= 3:
+        prep["perms"] = [torch.tensor(p) for p in itertools.permutations(range(T)) if list(p) != list(range(T))]
+    else:  # larger instance: reversal, rotation, one transposition
+        ident = list(range(T))
+        prep["perms"] = [torch.tensor(ident[::-1]), torch.tensor(ident[1:] + ident[:1]),
+                         torch.tensor([1, 0] + ident[2:])]
     return prep
 
 
-def _eval_case(ctx, cfg, seed, tpos, dim, q, k, v, mask, prep=None):
+def _same_values(a, b):
+    return a.shape == b.shape and (torch.equal(a, b) or bool(((a == b) | ((a != a) & (b != b))).all()))
+
+
+def _eval_case(ctx, cfg, seed, tpos, dim, q, k, v, mask, prep=None, extra=False):
     """All relations of the property for one (flavour, input) pair.  q/k/v already have the
     flavour's feature sizes."""
     kind = cfg["kind"]
@@ -276,7 +313,7 @@ def _eval_case(ctx, cfg, seed, tpos, dim, q, k, v, mask, prep=None):
         return {"cfg": cfg, "seed": seed, "tpos": tpos, "dim": dim, "q": q.tolist(), "k": k.tolist(),
                 "v": v.tolist(), "mask": None if mask is None else mask.tolist(),
                 "shapes": [list(q.shape), list(k.shape), list(v.shape),
-                           None if mask is None else list(mask.shape)]}
+                           None if mask is None else list(mask.shape)], "extra": extra}
 
     def sig(m_, **kw):
         return dict({"api": api, "mask_given": m_ is not None, "neg_dim": dim < 0}, **kw)
@@ -289,16 +326,25 @@ def _eval_case(ctx, cfg, seed, tpos, dim, q, k, v, mask, prep=None):
         return
 
     def run(sym, mod_, q_, k_, v_, m_):
+        args = [t for t in (q_, k_, v_, m_) if t is not None]
+        clones = [t.clone() for t in args]
         try:
-            return _call(mod_, q_, k_, v_, m_)
+            out = _call(mod_, q_, k_, v_, m_)
         except Exception as e:
             ctx.violation(sig(m_, symptom="raises", type=type(e).__name__, during=sym), case(),
                           {"error": str(e)[-300:]})
             return None
+        for n, (t, c) in enumerate(zip(args, clones)):  # arguments (incl. the mask) unchanged
+            if not _same_values(t, c):
+                ctx.violation(sig(m_, symptom="argument-modified", during=sym), case(),
+                              {"argument": n, "before": c.tolist(), "after": t.tolist()})
+                return None
+        return out
 
     base = run("base", mod, q, k, v, mask)
     if base is None:
         return
+    base_kept = base.clone()  # must survive every later call on the same module object
     exp_shape = out_shape if kind != "mha" else out_shape[:-1] + (cfg["out"] if cfg["out"] is not None else DV,)
     if tuple(base.shape) != tuple(exp_shape):
         ctx.violation(sig(mask, symptom="wrong-shape"), case(),
@@ -397,6 +443,30 @@ def _eval_case(ctx, cfg, seed, tpos, dim, q, k, v, mask, prep=None):
     if all_x is not None:
         if not same("broadcast-differs-from-everything-expanded", run("expanded-all", mod, *all_x), mask):
             return
+    # ---- guard passes on a reduced set of families (mc/guards.py)
+    if extra:
+        # memory layouts: query, key, value and mask as offset views / transposed-dense views
+        for name in ("offset-view", "transposed-dense"):
+            def rl(t):
+                return None if t is None else dict(GD.layouts(t)).get(name, t)
+            if not same("memory-layout-changes-result", run(name, mod, rl(q), rl(k), rl(v), rl(mask)), mask,
+                        {"layout": name}):
+                return
+        # float64 inputs on a float64 copy of the module
+        out64 = run("float64", _module(cfg, dim, seed, True), q.double(), k.double(), v.double(), mask)
+        if out64 is None or not same("float64-differs-from-float32", out64.float(), mask):
+            return
+        # masked KEYS may hold anything, also non-finite values (values stay finite, see ASSUMPTIONS)
+        if mask is not None and prep["rk"]:
+            kg = k.clone()
+            for n, idx in enumerate(prep["rk"]):
+                kg[idx] = (float("inf"), float("-inf"), float("nan"))[n % 3]
+            if not same("depends-on-masked-content", run("non-finite-keys", mod, q, kg, v, mask), mask,
+                        {"garbage": "non-finite keys"}):
+                return
+    if not _same_values(base, base_kept):
+        ctx.violation(sig(mask, symptom="earlier-result-changed-by-later-call"), case(),
+                      {"kept": base_kept.tolist(), "now": base.tolist()})
 
 
 def _slice_for(cfg, q, k, v):
@@ -433,12 +503,101 @@ def _mha_cfgs(fam, tier):
     return out
 
 
+def _extra_family(fam):
+    """Families that also get the layout / float64 / non-finite-key passes: rank 2, rank 3 with batch
+    size <= 2, rank 4 with both axis patterns from the menu of 6."""
+    if fam["rank"] == 2:
+        return True
+    if fam["rank"] == 3:
+        return max(fam["pats"][0]) <= 2
+    return all(tuple(p) in _REDUCED_AXIS for p in fam["pats"])
+
+
+# ====================================================================== object histories
+HIST_CFGS = SINGLE_CFGS + [_mha_cfg(1, 0, (True, False, True, False)), _mha_cfg(2, 1, (False, True, False, True)),
+                           _mha_cfg(2, 2, (True, True, False, False))]
+
+
+def _set_dim(mod, cfg, dim):
+    mod.dim = dim  # public attribute
+    if cfg["kind"] == "mha":
+        mod.single_head_attention.dim = dim  # documented as not kept in sync by the wrapper
+
+
+def _run_history(ctx, spec, tier, seed):
+    """ONE module object per flavour over a long life: key rank, batch shape, T and mask change from
+    call to call, dim is reassigned through the public attribute, train/eval is switched; every result
+    must equal that of a fresh object built with the same parameters for exactly this call."""
+    cfg = HIST_CFGS[spec["cfg"]]
+    api = API[cfg["kind"]]
+    fams = [f for f in _families("quick") if _extra_family(f) and (cfg["kind"] != "mha" or f["dim"] >= 0)]
+    fams = fams[spec["cfg"] % 3::3]
+    mod = _new_module(cfg, 0, seed)
+    for step, fam in enumerate(fams):
+        q, k, v, m_shape = _data(fam, seed)
+        q, k, v = _slice_for(cfg, q, k, v)
+        variants = list(_mask_variants(m_shape, fam["tpos"], "quick"))
+        mask = variants[step % len(variants)]
+        _set_dim(mod, cfg, fam["dim"])
+        mod.train(step % 2 == 0)
+        ctx.case(1, 1 if fam["T"] >= 2 else 0)
+        case = {"kind": "history", "cfg_index": spec["cfg"], "seed": seed, "step": step}
+        sig = {"api": api, "history": "one object, dim reassigned", "mask_given": mask is not None}
+        try:
+            out = _call(mod, q, k, v, mask)
+            fresh = _call(_new_module(cfg, fam["dim"], seed), q, k, v, mask)
+        except Exception as e:
+            ctx.violation(dict(sig, symptom="raises", type=type(e).__name__), case,
+                          {"error": str(e)[-300:], "step": step, "family": fam})
+            return
+        if not _close_t(out, fresh):
+            ctx.violation(dict(sig, symptom="reused-object-differs-from-fresh-object"), case,
+                          {"step": step, "family": fam, "reused": out.tolist(), "fresh": fresh.tolist()})
+            return
+    ctx.count("history steps", len(fams))
+    ctx.sample({"part": "history", "flavour": cfg, "steps": len(fams)})
+
+
+# ================================================================== one larger instance
+def _run_large(ctx, spec, tier, seed):
+    """key (7, 50, 5, K): T=50, 35 batch rows, per-row masks; query full and broadcast; dim 1 and -3."""
+    rng = random.Random(f"c20-large-{seed}")
+    B1, T, B2 = 7, 50, 5
+
+    def fill(shape):
+        n = 1
+        for s_ in shape:
+            n *= s_
+        return torch.tensor([rng.randint(-8, 8) / 4.0 for _ in range(n)], dtype=torch.float32).view(shape)
+
+    k = fill((B1, T, B2, KMAX))
+    v = fill((B1, T, B2, DV))
+    v[..., DV - 1] = 1.0
+    mask = torch.zeros(B1, T, B2, dtype=torch.bool)
+    for b1 in range(B1):
+        for b2 in range(B2):
+            keep = rng.sample(range(T), rng.randint(1, T))
+            mask[b1, keep, b2] = True
+    cfgs = SINGLE_CFGS + [_mha_cfg(4, 0, (True, False, True, False)), _mha_cfg(2, 1, (False, True, False, True))]
+    for qshape in ((B1, B2, QMAX), (1, B2, QMAX)):
+        q = fill(qshape)
+        for m in (mask, mask[:1], None):
+            prep = _prepare(1, q, k, v, m)
+            for cfg in cfgs:
+                for dim in ((1, -3) if cfg["kind"] != "mha" else (1,)):
+                    _eval_case(ctx, cfg, seed, 1, dim, *_slice_for(cfg, q, k, v), m, prep, True)
+    ctx.sample({"part": "large", "key": [B1, T, B2, "K"], "masks": "per row, shared over the first axis, None"})
+
+
 # ================================================================================ driver
 NSLICES = 64  # co-prime with the inner (spelling x T) periods 9 and 15, so slices are balanced
 
 
 def shards(tier, seed):
-    return [{"part": "params"}] + [{"part": "families", "slice": i} for i in range(NSLICES)]
+    # the cheap parts first, so a tight wall budget can never skip them
+    return ([{"part": "params"}, {"part": "large"}] +
+            [{"part": "history", "cfg": i} for i in range(len(HIST_CFGS))] +
+            [{"part": "families", "slice": i} for i in range(NSLICES)])
 
 
 def _run_params(ctx, seed):
@@ -478,6 +637,12 @@ def run_shard(spec, tier, seed):
     if spec["part"] == "params":
         _run_params(ctx, seed)
         return ctx
+    if spec["part"] == "history":
+        _run_history(ctx, spec, tier, seed)
+        return ctx
+    if spec["part"] == "large":
+        _run_large(ctx, spec, tier, seed)
+        return ctx
     sl = spec["slice"]
     first = True
     for i, fam in enumerate(_families(tier)):
@@ -485,6 +650,9 @@ def run_shard(spec, tier, seed):
             continue
         q, k, v, m_shape = _data(fam, seed)
         mcfgs = _mha_cfgs(fam, tier)
+        extra = _extra_family(fam)
+        if extra:
+            ctx.count("families with layout / float64 / non-finite-key passes")
         sliced = {}
         for cfg in SINGLE_CFGS + mcfgs:
             if (cfg["Q"], cfg["K"]) not in sliced:
@@ -492,7 +660,8 @@ def run_shard(spec, tier, seed):
         for mask in _mask_variants(m_shape, fam["tpos"], tier):
             prep = _prepare(fam["tpos"], q, k, v, mask)
             for cfg in SINGLE_CFGS + mcfgs:
-                _eval_case(ctx, cfg, seed, fam["tpos"], fam["dim"], *sliced[(cfg["Q"], cfg["K"])], mask, prep)
+                _eval_case(ctx, cfg, seed, fam["tpos"], fam["dim"], *sliced[(cfg["Q"], cfg["K"])], mask, prep,
+                           extra)
             ctx.count("(shape, mask) combinations")
         ctx.count("shape families")
         if first and fam["rank"] >= 3:
@@ -507,9 +676,13 @@ def replay(case):
         _CACHE.clear()
         _run_params(ctx, case["seed"])
         return ctx
+    if case.get("kind") == "history":
+        _run_history(ctx, {"cfg": case["cfg_index"]}, "quick", case["seed"])
+        return ctx
     q = torch.tensor(case["q"], dtype=torch.float32).view(case["shapes"][0])
     k = torch.tensor(case["k"], dtype=torch.float32).view(case["shapes"][1])
     v = torch.tensor(case["v"], dtype=torch.float32).view(case["shapes"][2])
     mask = None if case["mask"] is None else torch.tensor(case["mask"], dtype=torch.bool).view(case["shapes"][3])
-    _eval_case(ctx, case["cfg"], case["seed"], case["tpos"], case["dim"], q, k, v, mask)
+    _eval_case(ctx, case["cfg"], case["seed"], case["tpos"], case["dim"], q, k, v, mask, None,
+               case.get("extra", False))
     return ctx
